@@ -68,6 +68,9 @@ def run_case(c):
     cachetap.drain()
 
     def obs_event():
+        if not families.observable(a):
+            return {"op": "observe", "abs": dict(a), "obs": {}, "x": {}, "twin": {}, "tx": {}, "hits": 0,
+                    "misses": 0, "stale": []}
         o, x = observe(fam, obj, a)
         lk = cachetap.drain()
         twin = fam.build(a)
@@ -139,6 +142,32 @@ def gen_histories(ctx, fam, depth):
     return hs
 
 
+def aba_histories(ctx, fam, limit):
+    """"There and back" histories of length 3 (a, b, a) from TLC's depth-3 exploration: the object returns to a
+    setting it has had before - where a setter that remembers its last argument, a memo keyed by the argument
+    or a key that cycles would go wrong.  One per ordered pair of mutator names, seeded order."""
+    import random
+    h3 = [h for h in gen_histories(ctx, fam, 3) if h[0] == h[2] and h[0][0] != h[1][0]]
+    random.Random(ctx.seed + len(fam)).shuffle(h3)
+    def effective(h):
+        """the middle step really changes the abstract state (not: set_winter_only(False) when it is off)"""
+        a1 = families.apply_abs(dict(families.INIT[fam]), h[0][0], h[0][1])
+        a2 = families.apply_abs(a1, h[1][0], h[1][1])
+        if h[1][0] in ("set_winter_only", "set_max_delay", "set_directed"):
+            return {k: v for k, v in a2.items() if k != "MODE"} != {k: v for k, v in a1.items() if k != "MODE"}
+        return a2 != a1
+    h3 = [h for h in h3 if effective(h)]
+    # the pairs in which the middle step recomputes the object's data come first
+    h3.sort(key=lambda h: 0 if h[1][0] in ("set_winter_only", "set_max_delay", "set_directed") else 1)
+    seen3, aba = set(), []
+    for h in h3:
+        key = (h[0][0], h[1][0])
+        if key not in seen3:
+            seen3.add(key)
+            aba.append(h)
+    return aba[:limit]
+
+
 def main(ctx):
     plan = QUICK if ctx.tier == "quick" else THOROUGH
     cases = []
@@ -159,18 +188,7 @@ def main(ctx):
             rng.shuffle(rest)
             hs = keep + rest[:max(0, 90 - len(keep))]
         if ctx.tier == "quick":
-            # ... plus "there and back" histories of length 3 (a, b, a): the object returns to a setting it has
-            # had before - where a setter that remembers its last argument, or a key that cycles, would go wrong
-            import random
-            h3 = [h for h in gen_histories(ctx, fam, 3) if h[0] == h[2] and h[0][0] != h[1][0]]
-            random.Random(ctx.seed + len(fam)).shuffle(h3)
-            seen3, aba = set(), []
-            for h in h3:
-                key = (h[0][0], h[1][0])
-                if key not in seen3:
-                    seen3.add(key)
-                    aba.append(h)
-            hs = hs + aba[:ABA_PER_FAMILY]
+            hs = hs + aba_histories(ctx, fam, ABA_PER_FAMILY)
         for k, h in enumerate(hs):
             cases.append({"case": "%s_%d" % (fam, k), "family": fam, "hist": [list(m) for m in h]})
     ctx.exhaustive = ctx.tier == "thorough"
